@@ -1,0 +1,10 @@
+//go:build verif
+
+package ctxerrgroup
+
+// Contracts for the verification machinery in /verif (govc).  This file is
+// comment-only and is compiled only with -tags verif.
+
+//@ func WithContext(ctx) (g, c)
+//@   props C20
+//@   ensures usable: g != nil && c != nil
